@@ -101,7 +101,25 @@ func schemaFor(variant int, tag string) []dump.File {
 	if variant == 1 {
 		return schemaIncludes(tag)
 	}
+	if variant == 2 {
+		return schemaRejects(tag)
+	}
 	return schema(tag)
+}
+
+// schemaRejects: the schema, and after it texts that the set refuses - a second text for a module it
+// holds and a statement that is no module, each with typedefs, groupings and identities that do not
+// resolve. The refusal is the last thing the set's loader does: whatever it left lying about meets
+// the next load of some other set.
+func schemaRejects(tag string) []dump.File {
+	fs := append([]dump.File{}, schema(tag)...)
+	first := fs[0].Text
+	name := strings.Fields(first)[1]
+	bad := ` typedef leaked-` + tag + ` { type nosuch-` + tag + `; } typedef leaked2 { type int8 { range "9..1"; } } grouping leaked-g { uses nosuch-g; } leaf leaked-l { type leaked2; }`
+	fs = append(fs,
+		dump.File{Name: "again-" + tag + ".yang", Text: `module ` + name + ` { ` + H(name) + bad + ` identity leaked-id { base nosuch-base; } }`},
+		dump.File{Name: "nomodule-" + tag + ".yang", Text: `container stray { ` + bad + ` }`})
+	return fs
 }
 
 // ---------------------------------------------------------------------------------------------
@@ -346,8 +364,17 @@ func execute(sc Scenario, prefix []int) (trace, nen, run []int, problem string) 
 			// the sequential reference is computed after the concurrent run: in a fresh process the
 			// first execution then meets every lazily built package-level structure unbuilt
 			wk := t + 100*sc.Threads[t][0]
+			// the sets hold valid schemas (and texts they refuse): whatever the other sets do or
+			// refuse, processing reports nothing
+			if strings.Contains(results[t][0], "process errors:") || strings.HasPrefix(results[t][0], "PANIC:") {
+				return trace, nen, run, fmt.Sprintf("pipeline %d over a valid schema reports errors:\n%s", t, results[t][0])
+			}
 			if _, ok := pipelineWant[wk]; !ok {
-				pipelineWant[wk] = dump.Run(schemaFor(sc.Threads[t][0], fmt.Sprint("t", t)), dump.Options{Positions: true}).Summary()
+				var r string
+				if pan, pt := core.Guard(func() { r = dump.Run(schemaFor(sc.Threads[t][0], fmt.Sprint("t", t)), dump.Options{Positions: true}).Summary() }); pan {
+					r = "PANIC: " + pt
+				}
+				pipelineWant[wk] = r
 			}
 			if results[t][0] != pipelineWant[wk] {
 				return trace, nen, run, fmt.Sprintf("pipeline %d differs from its sequential run:\n%s\n--- sequential:\n%s", t, results[t][0], pipelineWant[wk])
@@ -389,7 +416,11 @@ func scenarios(tier string) []Scenario {
 	out = append(out, Scenario{"pipelines", [][]int{{0}, {0}}})
 	// independent sets that share their module names only: a module with ten submodules (schemaIncludes)
 	out = append(out, Scenario{"pipelines", [][]int{{1}, {1}}})
+	// a set whose last loads are refused beside a set that loads cleanly, and two of the former
+	out = append(out, Scenario{"pipelines", [][]int{{2}, {0}}})
 	if tier == "thorough" {
+		out = append(out, Scenario{"pipelines", [][]int{{2}, {2}}})
+		out = append(out, Scenario{"pipelines", [][]int{{0}, {2}, {1}}})
 		out = append(out, Scenario{"pipelines", [][]int{{1}, {1}, {1}}})
 		out = append(out, Scenario{"pipelines", [][]int{{0}, {0}, {0}}})
 	}
@@ -801,6 +832,8 @@ func fingerprint(problem string) string {
 		return "deadlock"
 	case strings.HasPrefix(problem, "data race"):
 		return "data-race"
+	case strings.Contains(problem, "over a valid schema reports errors"):
+		return "valid-set-reports-errors-beside-another-set"
 	}
 	return "result-differs-from-sequential"
 }
